@@ -3,6 +3,9 @@ package checks
 import (
 	"encoding/json"
 	"fmt"
+	"github.com/fullstorydev/emulators/bigtable/bttest"
+	"os"
+	"path/filepath"
 	"strings"
 	"time"
 
@@ -98,6 +101,9 @@ type c06Param struct {
 	Iter    bool      `json:"iterpoints,omitempty"`
 	// Close: the observations that close the history (default: one full read of the table)
 	Close []bt.Op `json:"close,omitempty"`
+	// Restart (engine "disk"): after the history has been judged, the emulator is stopped and started again on the
+	// directory (public constructor); the closing observations must be answered as before the restart
+	Restart bool `json:"restart,omitempty"`
 }
 
 func c06OpName(o bt.Op) string {
@@ -138,8 +144,18 @@ func (p c06Param) name() string {
 func c06Scenario(c *fw.Ctx, p c06Param) *schedScenario {
 	raw, _ := json.Marshal(p)
 	return &schedScenario{Name: p.name(), Param: raw, Build: func() *schedInst {
-		base := bt.NewStorage(p.Engine, "")
-		d := bt.NewDriverOn(p.Engine, "", bt.PointStorage{Storage: base, IterPoints: p.Iter})
+		dir := ""
+		if p.Engine == "disk" {
+			btDirSeq++
+			dir = filepath.Join(c.Scratch, fmt.Sprintf("c06d%d", btDirSeq))
+			_ = os.MkdirAll(dir, 0o777)
+		}
+		base := bt.NewStorage(p.Engine, dir)
+		// every database the storage hands out is remembered: a deleted table's handle stays open inside this process
+		// (the emulator does not close it), and a "restart" within one process must not trip over its file lock -
+		// a real restart is a new process
+		var handedOut []bttest.Rows
+		d := bt.NewDriverOn(p.Engine, dir, bt.PointStorage{Storage: base, IterPoints: p.Iter, OnCreate: func(_ string, r bttest.Rows) { handedOut = append(handedOut, r) }})
 		model := bt.NewModel()
 		setup := append(setupT(), p.Pre...)
 		for i := range setup {
@@ -158,12 +174,46 @@ func c06Scenario(c *fw.Ctx, p c06Param) *schedScenario {
 		}
 		inst := &schedInst{Threads: threads}
 		inst.Verdict = func(x *sched.Exec) (string, string, string) {
-			defer d.Close()
+			defer func() {
+				d.Close()
+				if dir != "" {
+					_ = os.RemoveAll(dir)
+				}
+			}()
 			// a final complete read, after every thread has returned, closes the history
+			var closing []string
 			for _, o := range p.Close {
-				h.do(d, len(p.Threads), o)
+				r := h.do(d, len(p.Threads), o)
+				closing = append(closing, o.String()+" -> "+respKey(r))
 			}
 			fin := h.do(d, len(p.Threads), bt.Op{Kind: "ReadRows", Table: tblT})
+			closing = append(closing, "full read -> "+respKey(fin))
+			if p.Restart && dir != "" {
+				// what is served must be what is persisted
+				d.Close()
+				for _, r := range handedOut {
+					func() {
+						defer func() { _ = recover() }() // already closed with the server
+						r.Close()
+					}()
+				}
+				d2, err := bt.NewDriverReal("disk", dir)
+				if err != nil {
+					return "restart", "starting the emulator again on the directory fails: " + err.Error(), "restart"
+				}
+				var after []string
+				for _, o := range p.Close {
+					o := o
+					after = append(after, o.String()+" -> "+respKey(d2.Apply(&o)))
+				}
+				after = append(after, "full read -> "+respKey(d2.Apply(&bt.Op{Kind: "ReadRows", Table: tblT})))
+				d2.Close()
+				for i := range closing {
+					if closing[i] != after[i] {
+						return "restart", fmt.Sprintf("after a stop and a start on the same directory the emulator answers differently:\n   before: %.300s\n   after:  %.300s", closing[i], after[i]), "restart"
+					}
+				}
+			}
 			for _, o := range h.ops {
 				if r := o.Output.(bt.Resp); r.Panic != "" {
 					return "panic", "panic in " + o.Input.(btIn).Op.String() + ": " + r.Panic, "panic"
